@@ -15,11 +15,16 @@ import (
 
 type vfPstore struct {
 	peerstore.Peerstore
-	addrs map[peer.ID][]ma.Multiaddr
+	addrs      map[peer.ID][]ma.Multiaddr
+	onAddAddrs func() // something that happens while an AddProvider call is on its way
 }
 
 func (ps *vfPstore) AddAddrs(p peer.ID, a []ma.Multiaddr, _ time.Duration) {
 	ps.addrs[p] = append(ps.addrs[p], a...)
+	if f := ps.onAddAddrs; f != nil {
+		ps.onAddAddrs = nil
+		f()
+	}
 }
 func (ps *vfPstore) PeerInfo(p peer.ID) peer.AddrInfo { return peer.AddrInfo{ID: p, Addrs: ps.addrs[p]} }
 
@@ -39,6 +44,14 @@ func (d *vfCountingDS) Put(ctx context.Context, k ds.Key, v []byte) error {
 func (d *vfCountingDS) Delete(ctx context.Context, k ds.Key) error {
 	d.accesses++
 	return d.Batching.Delete(ctx, k)
+}
+
+func vfProvAddr() ma.Multiaddr {
+	a, err := ma.NewMultiaddrBytes([]byte{4, 20, 0, 0, 1, 6, 0x0f, 0xa1})
+	if err != nil {
+		panic(err)
+	}
+	return a
 }
 
 // VfProviderHistory (C07): histories over one key (plus a second key to evict
@@ -133,6 +146,35 @@ func VfProviderHistory() {
 	vfReach("providers/end")
 }
 
+// VfProviderCloseRace (C07, C14): Close completes while an AddProvider call is
+// between its entry and the store: that call reports ErrClosed and does not
+// touch the datastore any more.
+func VfProviderCloseRace() {
+	ctx := context.Background()
+	store := &vfCountingDS{Batching: dssync.MutexWrap(ds.NewMapDatastore())}
+	ps := &vfPstore{addrs: map[peer.ID][]ma.Multiaddr{}}
+	pm, err := NewProviderManager(peer.ID("self"), ps, store, CleanupInterval(0))
+	vfAssert(err == nil && pm != nil, "providers/constructor")
+	key := []byte("some-key")
+	provs := []peer.ID{peer.ID("prov-a"), peer.ID("prov-b")}
+	if vfBool("keyAlreadyCached") {
+		vfAssert(pm.AddProvider(ctx, key, peer.AddrInfo{ID: provs[1]}) == nil, "providers/add")
+		_, _ = pm.GetProviders(ctx, key)
+	}
+	n0 := 0
+	ps.onAddAddrs = func() {
+		vfAssert(pm.Close() == nil, "close/no-error")
+		n0 = store.accesses
+	}
+	aerr := pm.AddProvider(ctx, key, peer.AddrInfo{ID: provs[0], Addrs: []ma.Multiaddr{vfProvAddr()}})
+	vfAssert(aerr == ErrClosed, "close/call-overtaken-by-close-reports-closed")
+	vfAssert(store.accesses == n0, "close/no-datastore-access-after-close")
+	vfAssert(pm.Close() == nil, "close/may-be-called-again")
+	vfWaitIdle()
+	vfAssert(vfLiveGoroutines() == 1, "close/no-goroutine-left")
+	vfReach("providers/close-race-end")
+}
+
 // VfProviderTimeCodec (C07-H1): the timestamp codec round-trips every int64.
 func VfProviderTimeCodec() {
 	ns := vfI64("nanos")
@@ -149,4 +191,5 @@ func VfProviderTimeCodec() {
 }
 
 var _ = vfRegister("VfProviderHistory", VfProviderHistory)
+var _ = vfRegister("VfProviderCloseRace", VfProviderCloseRace)
 var _ = vfRegister("VfProviderTimeCodec", VfProviderTimeCodec)
